@@ -8,7 +8,11 @@ for f in sorted(glob.glob("/verif/seeded/*/meta.json"), key=lambda p: (p.split("
     missed = sorted({r["check"] for r in m.get("check_runs", []) if r["verdict"] == "MISSED"} - set(caught))
     first = next((r["first_signatures"][0] for r in m.get("check_runs", []) if r["verdict"] == "CAUGHT" and r["check"] == m["breaks_property"] and r["first_signatures"]), "")
     hist = m.get("history", "")
-    rows.append((m["id"], m["needs_to_manifest"].split(":")[0][:95], ", ".join(caught) or "-", first[:70], hist))
+    what = m["needs_to_manifest"].split(": needs")[0].split(": only")[0]
+    if len(what) > 120:
+        what = what[:117] + "..."
+    note = "outside the properties' quantifiers, see meta.json" if m.get("judgement") else ""
+    rows.append((m["id"], what.replace("|", "/"), ", ".join(caught) or "-", first[:80].replace("|", " / "), note))
 print("| seed | change (details: seeded/<seed>/) | caught by (quick tier) | first signature from the target check | notes |")
 print("|---|---|---|---|---|")
 for r in rows:
